@@ -25,7 +25,7 @@ Definition wsub (a b : Z) : R Z := if a <? b then Panic PUnderflow else Ok (a - 
 Definition wmul64 (a v : Z) : R Z := if M256 <=? a * v then Panic POverflow else Ok (a * v).
 Definition wdiv64 (a v : Z) : R Z := if v =? 0 then Panic PDivZero else Ok (a / v).
 Definition inv_target (n : Z) : R Z := if n =? 0 then Panic PDivZero else Ok (maxT / n).
-Definition int_to_target (i : Z) : Z := if 2 ^ 255 <=? i then maxT else i.   (* BitLen() >= 256 *)
+Definition int_to_target (i : Z) : Z := if 2 ^ 256 <=? i then maxT else i.   (* BitLen() > 256 *)
 Definition add_target (x y : Z) : R Z := if x + y =? 0 then Panic PDivZero else Ok (int_to_target ((x * y) / (x + y))).
 Definition mul_target_frac (x n d : Z) : R Z := if d =? 0 then Panic PDivZero else Ok (int_to_target ((x * n) / d)).
 
